@@ -71,14 +71,37 @@ Theorem C05_refcounter_retain_matches_source : forall w r n, cnt (retain1 w r n)
 Proof. exact bridge_rc_retain_sync. Qed.
 Print Assumptions C05_refcounter_kernel_matches_source.
 
+(* the turn of a child that left since the snapshot was taken is not vacuous, and it is balanced: node 2 is a slice that
+   ends after one element and is attached to the source 0 AND to the map 1 (through connect).  An emission at 0 walks the
+   snapshot [1; 2]: 1 hands the element on to 2, which takes it, finishes and removes itself from the downstreams of both;
+   when the loop of 0 reaches 2 it is gone (Stream._emit: `downstream not in self.downstreams`): no call 0 -> 2, and the
+   reference retained for it up-front is released - the counter is back at the owner's 1 and no callback was scheduled.
+   (With the first wording of the repair of defect 32, a bare `continue`, the count stayed at 2.) *)
+Definition ex_skip_g : graph :=
+  [ {| nkind := KSource; ups := [] |};
+    {| nkind := KMap (fun v => Some v); ups := [0] |};
+    {| nkind := KSlice 0 (Some 1) 1; ups := [0; 1] |};
+    {| nkind := KSink (fun _ => Some tt); ups := [2] |} ].
+Example C05_ex_skip_is_a_dag : wf_dag ex_skip_g.
+Proof. apply wf_dagb_spec. reflexivity. Qed.
+Example C05_detached_child_skipped_and_balanced :
+  let w0 := retain1 (init_world ex_skip_g) 0 1 in            (* the owner's reference *)
+  let '(w1, s1) := push 6 ex_skip_g 0 0 w0 (VInt 7%Z) [{| mid := 0; mref := true |}] in
+  s1 = SOk /\ downs ex_skip_g w0 0 = [1; 2] /\ downs ex_skip_g w1 0 = [1] /\
+  map (fun e => (e_src e, e_dst e)) (rev (log w1)) = [(0, 1); (1, 2); (2, 3)] /\
+  cnt w1 0 = 1%Z /\ fired w1 = [].
+Proof. vm_compute. repeat split; reflexivity. Qed.
+
 (* ---- _emit bridges (harness/mkprops_emit.py): begin ---- *)
 (* Stream._emit, Stream._retain_refs and Stream._release_refs are the ones regenerated from the source under test on this
    run: Gen/KN__refs.v and Gen/KN__emit.v are written by harness/gen_emit.py from the python AST of streamz/core.py,
    statement by statement, in the world-level monad of Base/MiniPyW.v (an exception raised by `downstream.update` unwinds
    the loop; the returned list of awaitables is represented by the status only).  Base/BridgeEmit.v proves that they are
    the model's retain / release / push: `downstream.update` is the parameter call_update (log the call, evaluate the node's
-   update, run its action list with the recursive push), `self.downstreams` is read through the model's downs, and the
-   model's deliver is that call followed by the release - unless the call unwinds. *)
+   update, run its action list with the recursive push), `self.downstreams` is read through the model's downs, one turn
+   of the loop is the model's hand (the test `downstream not in self.downstreams` is attached: membership in downs of the
+   world at the time of the test; a child that left since the snapshot is not called and the reference retained for it is
+   released), and the model's deliver is the call followed by the release - unless the call unwinds. *)
 From SZ Require Import Base.MiniPyW Base.BridgeEmit.
 Theorem C05_run_retain_refs_matches_source :
   forall m n w, Gen.KN__refs.gen_body__retain_refs m n w = WRet tt (retain w m n).
@@ -105,7 +128,7 @@ Print Assumptions C05_emit_matches_source.
 Theorem C05_emit_matches_source_any_callee :
   forall emitfrom g depth n w x m,
   (let ds := downs g w n in
-   fold_left (deliver emitfrom g depth n x m) ds (retain w m (Z.of_nat (length ds)), SOk)) =
+   fold_left (hand emitfrom g depth n x m) ds (retain w m (Z.of_nat (length ds)), SOk)) =
   Gen.KN__emit.gen_emit (fun w => downs g w n) (call_update emitfrom g depth n) w x m.
 Proof. exact bridge_emit_gen. Qed.
 Print Assumptions C05_emit_matches_source_any_callee.
@@ -116,6 +139,20 @@ Theorem C05_deliver_is_call_then_release :
   if status_go s' then (release w' m 1, status_join s s') else (w', s').
 Proof. exact deliver_call_release. Qed.
 Print Assumptions C05_deliver_is_call_then_release.
+Theorem C05_deliver_skipped_after_unwinding :
+  forall emitfrom g depth n x m w s d, status_go s = false -> deliver emitfrom g depth n x m (w, s) d = (w, s).
+Proof. exact deliver_stop. Qed.
+Print Assumptions C05_deliver_skipped_after_unwinding.
+Theorem C05_turn_is_hand_over_when_still_attached :
+  forall emitfrom g depth n x m w s d, attached g w n d = true ->
+  hand emitfrom g depth n x m (w, s) d = deliver emitfrom g depth n x m (w, s) d.
+Proof. exact hand_attached. Qed.
+Print Assumptions C05_turn_is_hand_over_when_still_attached.
+Theorem C05_turn_only_releases_when_detached :
+  forall emitfrom g depth n x m w s d, status_go s = true -> attached g w n d = false ->
+  hand emitfrom g depth n x m (w, s) d = (release w m 1, s).
+Proof. exact hand_gone. Qed.
+Print Assumptions C05_turn_only_releases_when_detached.
 (* ---- _emit bridges (harness/mkprops_emit.py): end ---- *)
 
 (* ---- node bridges (harness/mkprops_nodes.py): begin ---- *)
